@@ -127,7 +127,12 @@ func (c *Collection) ExplainQuery(statement string, args map[string]any) (plan m
 func (c *Collection) prepareQuery(statement string, args map[string]any) (string, []any) {
 	// Replace `$_keyspace` with a sub-query matching documents in this collection:
 	statement = strings.Replace(statement, sgbucket.KeyspaceQueryToken, "_keyspace", -1)
-	statement = fmt.Sprintf(`WITH _keyspace as (SELECT key as id, value as body, xattrs
+	// The body and xattrs columns are BLOBs holding JSON text. SQLite's JSON functions and operators take
+	// a BLOB argument for binary JSON (JSONB) whenever its bytes happen to look like it -- any 8-byte JSON
+	// object does, '{' being the header of a 7-byte array -- and then find no properties in it, so
+	// present both columns as text:
+	statement = fmt.Sprintf(`WITH _keyspace as (SELECT key as id, CAST(value AS TEXT) as body,
+							 CAST(xattrs AS TEXT) as xattrs
 							 FROM documents WHERE collection=%d AND value NOT NULL) %s`,
 		c.id, statement)
 	// Convert the args to an array of sql.NamedArg values:
